@@ -750,3 +750,630 @@ Proof.
 Qed.
 
 End Export.
+
+(* ------------------------------------------------------------ the abstract RIB *)
+Lemma filter_length_succ_le : forall n used,
+  le (length (filter (fun x => N.succ n <=? x) used)) (length (filter (fun x => n <=? x) used)).
+Proof.
+  intros n. induction used as [|x u IH]; cbn [filter length]; auto.
+  destruct (N.succ n <=? x) eqn:H1, (n <=? x) eqn:H2; cbn [length]; lia.
+Qed.
+
+Lemma filter_length_succ_lt : forall n used, In n used ->
+  lt (length (filter (fun x => N.succ n <=? x) used)) (length (filter (fun x => n <=? x) used)).
+Proof.
+  intros n. induction used as [|x u IH]; cbn [filter length In]; [tauto|].
+  intros [->|Hin].
+  - assert (H1 : (N.succ n <=? n) = false) by lia. assert (H2 : (n <=? n) = true) by lia.
+    rewrite H1, H2. cbn [length]. pose proof (filter_length_succ_le n u). lia.
+  - specialize (IH Hin). destruct (N.succ n <=? x) eqn:H1, (n <=? x) eqn:H2; cbn [length]; lia.
+Qed.
+
+Lemma lowest_free_fresh : forall fuel n used,
+  le (length (filter (fun x => n <=? x) used)) fuel -> ~ In (lowest_free fuel n used) used.
+Proof.
+  induction fuel as [|f IH]; intros n used Hlen; cbn [lowest_free].
+  - intros Hin. assert (Hf : In n (filter (fun x => n <=? x) used)).
+    { apply filter_In; split; auto. lia. }
+    destruct (filter (fun x => n <=? x) used); [contradiction | cbn [length] in Hlen; lia].
+  - destruct (memN n used) eqn:Hm.
+    + apply IH. apply memN_In in Hm. pose proof (filter_length_succ_lt n used Hm). lia.
+    + apply memN_false; auto.
+Qed.
+
+Lemma filter_length_le' : forall {A} (f : A -> bool) l, le (length (filter f l)) (length l).
+Proof. induction l as [|a l IH]; cbn [filter length]; auto. destruct (f a); cbn [length]; lia. Qed.
+
+Lemma alloc_fresh : forall used, ~ In (alloc used) used.
+Proof. intros. apply lowest_free_fresh. apply filter_length_le'. Qed.
+
+Lemma NoDup_app_one : forall {A} (l : list A) x, NoDup l -> ~ In x l -> NoDup (l ++ [x]).
+Proof.
+  induction l as [|a l IH]; cbn [app]; intros x Hnd Hx.
+  - constructor; auto.
+  - inversion Hnd; subst. constructor.
+    + rewrite in_app_iff. cbn [In]. intros [H|[H|[]]]; auto. subst. apply Hx; left; auto.
+    + apply IH; auto. intros H; apply Hx; right; auto.
+Qed.
+
+Definition wf (L : rib) : Prop :=
+  NoDup (map d_net L) /\ NoDup (map d_id L) /\ forall d, In d L -> NoDup (map p_pid (d_paths d)).
+
+Lemma rfind_Some : forall net L d, rfind net L = Some d -> In d L /\ d_net d = net.
+Proof.
+  induction L as [|x L IH]; cbn [rfind]; intros d H; [discriminate|].
+  destruct (d_net x =? net) eqn:Hx.
+  - inversion H; subst. apply N.eqb_eq in Hx. split; auto. left; auto.
+  - destruct (IH _ H); split; auto. right; auto.
+Qed.
+
+Lemma rfind_None : forall net L, rfind net L = None -> ~ In net (map d_net L).
+Proof.
+  induction L as [|x L IH]; cbn [rfind map In]; intros H; [tauto|].
+  destruct (d_net x =? net) eqn:Hx; [discriminate|]. apply N.eqb_neq in Hx.
+  intros [H1|H1]; auto. apply IH; auto.
+Qed.
+
+Lemma rfind_In : forall L d, NoDup (map d_net L) -> In d L -> rfind (d_net d) L = Some d.
+Proof.
+  induction L as [|x L IH]; cbn [rfind map In]; intros d Hnd Hin; [contradiction|].
+  inversion Hnd as [|? ? Hn Hd]; subst. destruct Hin as [->|Hin].
+  - now rewrite N.eqb_refl.
+  - destruct (d_net x =? d_net d) eqn:Hx; auto.
+    apply N.eqb_eq in Hx. exfalso; apply Hn. rewrite Hx. apply in_map; auto.
+Qed.
+
+Lemma In_same_id : forall L d d', NoDup (map d_id L) -> In d L -> In d' L -> d_id d = d_id d' -> d = d'.
+Proof.
+  induction L as [|x L IH]; cbn [map In]; intros d d' Hnd H1 H2 He; [contradiction|].
+  inversion Hnd as [|? ? Hn Hd]; subst.
+  destruct H1 as [->|H1], H2 as [->|H2]; auto.
+  - exfalso; apply Hn. rewrite He. apply in_map; auto.
+  - exfalso; apply Hn. rewrite <- He. apply in_map; auto.
+Qed.
+
+Lemma rfind_app : forall net L L',
+  rfind net (L ++ L') = match rfind net L with Some d => Some d | None => rfind net L' end.
+Proof.
+  induction L as [|x L IH]; intros; cbn [app rfind]; auto. destruct (d_net x =? net); auto.
+Qed.
+
+Lemma rfind_rupdate : forall n net paths L,
+  rfind n (rupdate net paths L) =
+  if n =? net then match rfind net L with
+                   | Some d => Some {| d_net := net; d_id := d_id d; d_paths := paths |}
+                   | None => None end
+  else rfind n L.
+Proof.
+  induction L as [|x L IH]; cbn [rupdate rfind].
+  - now destruct (n =? net).
+  - destruct (d_net x =? net) eqn:Hx; cbn [rfind d_net].
+    + apply N.eqb_eq in Hx. destruct (n =? net) eqn:Hn.
+      * apply N.eqb_eq in Hn; subst n. now rewrite N.eqb_refl.
+      * rewrite Hx. rewrite (N.eqb_sym net n), Hn. reflexivity.
+    + rewrite IH. destruct (n =? net) eqn:Hn.
+      * apply N.eqb_eq in Hn; subst n. rewrite Hx. reflexivity.
+      * reflexivity.
+Qed.
+
+Lemma rfind_rfree : forall n net L, rfind n (rfree net L) = if n =? net then None else rfind n L.
+Proof.
+  induction L as [|x L IH]; cbn [rfree filter rfind].
+  - now destruct (n =? net).
+  - fold (rfree net L). destruct (d_net x =? net) eqn:Hx; cbn [negb rfind].
+    + rewrite IH. apply N.eqb_eq in Hx. destruct (n =? net) eqn:Hn; auto.
+      rewrite Hx, (N.eqb_sym net n), Hn. reflexivity.
+    + rewrite IH. destruct (n =? net) eqn:Hn; auto.
+      apply N.eqb_eq in Hn; subst n. now rewrite Hx.
+Qed.
+
+Lemma map_net_rupdate : forall net paths L, map d_net (rupdate net paths L) = map d_net L.
+Proof.
+  induction L as [|x L IH]; cbn [rupdate map]; auto.
+  destruct (d_net x =? net) eqn:Hx; cbn [map d_net]; [|now rewrite IH].
+  apply N.eqb_eq in Hx. now rewrite Hx.
+Qed.
+
+Lemma map_id_rupdate : forall net paths L, map d_id (rupdate net paths L) = map d_id L.
+Proof.
+  induction L as [|x L IH]; cbn [rupdate map]; auto.
+  destruct (d_net x =? net); cbn [map d_id]; [reflexivity | now rewrite IH].
+Qed.
+
+Lemma In_rupdate_iff : forall net paths L d0 d,
+  NoDup (map d_net L) -> rfind net L = Some d0 ->
+  (In d (rupdate net paths L) <->
+   (In d L /\ d_net d <> net) \/ d = {| d_net := net; d_id := d_id d0; d_paths := paths |}).
+Proof.
+  induction L as [|x L IH]; cbn [rupdate rfind map In]; intros d0 d Hnd Hf; [discriminate|].
+  inversion Hnd as [|? ? Hn Hd]; subst.
+  destruct (d_net x =? net) eqn:Hx.
+  - inversion Hf; subst x. apply N.eqb_eq in Hx. cbn [In].
+    assert (Ht : forall y, In y L -> d_net y <> net).
+    { intros y Hy He. apply Hn. rewrite Hx, <- He. apply in_map; auto. }
+    split.
+    + intros [H|H]; [right; auto | left; split; auto].
+    + intros [[[H|H] Hne]|H]; [subst; contradiction | right; auto | left; auto].
+  - cbn [In]. apply N.eqb_neq in Hx. rewrite (IH d0 d Hd Hf). split.
+    + intros [H|[[H1 H2]|H]]; [subst; left; split; auto | left; split; auto | right; auto].
+    + intros [[[H|H] Hne]|H]; [left; auto | right; left; auto | right; right; auto].
+Qed.
+
+Lemma In_rfree : forall net L d, In d (rfree net L) <-> In d L /\ d_net d <> net.
+Proof.
+  intros. unfold rfree. rewrite filter_In, negb_true_iff, N.eqb_neq. tauto.
+Qed.
+
+Lemma wf_nil : wf [].
+Proof. split; [constructor|split; [constructor|intros ? []]]. Qed.
+
+Lemma wf_rset : forall net paths L, wf L -> NoDup (map p_pid paths) -> wf (fst (rset net paths L)).
+Proof.
+  intros net paths L [H1 [H2 H3]] Hp. unfold rset. destruct (rfind net L) as [d0|] eqn:Hf; cbn [fst].
+  - split; [now rewrite map_net_rupdate|]. split; [now rewrite map_id_rupdate|].
+    intros d Hd. apply (In_rupdate_iff net paths L d0 d H1 Hf) in Hd as [[Hd _]|Hd]; auto.
+    subst d; auto.
+  - split; [|split].
+    + rewrite map_app. cbn [map d_net]. apply NoDup_app_one; auto. apply rfind_None; auto.
+    + rewrite map_app. cbn [map d_id]. apply NoDup_app_one; auto. apply alloc_fresh.
+    + intros d Hd. apply in_app_or in Hd as [Hd|[Hd|[]]]; auto. subst d; auto.
+Qed.
+
+Lemma wf_rfree : forall net L, wf L -> wf (rfree net L).
+Proof.
+  intros net L [H1 [H2 H3]]. unfold rfree. split; [|split].
+  - apply NoDup_map_filter; auto.
+  - apply NoDup_map_filter; auto.
+  - intros d Hd. apply filter_In in Hd as [Hd _]. auto.
+Qed.
+
+(* ------------------------------------------------------------ the neighbour against a RIB *)
+Section Inv.
+Variable E : Type.
+Variable max : N.
+Variable vis : path -> bool.
+Variable pol : bool -> N -> path -> option E.
+
+Let aptx := negb (max =? 1).
+Notation SEL := (sel E max vis pol).
+Notation FRESH := (fresh_at E max vis pol).
+Notation PC := (process_change E ByNet max aptx vis pol []).
+Notation TT := (T E).
+
+Definition contrib (d : dest) (k : key) : Prop :=
+  d_id d = fst k /\ In (snd k) (map fst (SEL (d_net d) (d_paths d))).
+
+Definition emap_ok (L : rib) (em : emap) : Prop :=
+  forall k, In k em <-> exists d, In d L /\ contrib d k.
+
+Definition pend_ok (L : rib) (p : ptx E) (base : key -> option E) : Prop :=
+  forall k, TT p base k = FRESH L k.
+
+Definition mkc (net i : N) (bc ac : bool) (repl : option N) (paths : list path) : change :=
+  {| c_net := net; c_id := i; c_bc := bc; c_ac := ac; c_repl := repl; c_paths := paths |}.
+
+(* a RIB operation that emits a change / that emits none *)
+Inductive emit : rib -> change -> rib -> Prop :=
+| emit_set : forall L net bc ac repl paths,
+    truthful L (RibSet net bc ac repl paths) ->
+    emit L (mkc net (snd (rset net paths L)) bc ac repl paths) (fst (rset net paths L))
+| emit_free : forall L net d,
+    rfind net L = Some d ->
+    emit L (mkc net (d_id d) true true None []) (rfree net L).
+
+Inductive silent : rib -> rib -> Prop :=
+| silent_touch : forall L net, rfind net L = None -> silent L (fst (rset net [] L))
+| silent_free : forall L net, old_paths net L = [] -> silent L (rfree net L).
+
+Lemma fresh_old : forall L net w, FRESH L (net, w) = assoc w (SEL net (old_paths net L)).
+Proof.
+  intros. unfold fresh_at, old_paths. cbn [fst snd]. destruct (rfind net L); auto.
+  rewrite sel_nil. reflexivity.
+Qed.
+
+Record emit_ok (L : rib) (c : change) (L' : rib) : Prop := {
+  eo_wf : wf L';
+  eo_hyp : step_hyp c (old_paths (c_net c) L);
+  eo_old : forall w, (exists d, In d L /\ contrib d (c_id c, w)) <->
+                     In w (map fst (SEL (c_net c) (old_paths (c_net c) L)));
+  eo_fresh : forall k, FRESH L' k = if fst k =? c_net c
+                                    then assoc (snd k) (SEL (c_net c) (c_paths c))
+                                    else FRESH L k;
+  eo_contrib : forall k, (exists d, In d L' /\ contrib d k) <->
+                         (fst k = c_id c /\ In (snd k) (map fst (SEL (c_net c) (c_paths c)))) \/
+                         (fst k <> c_id c /\ exists d, In d L /\ contrib d k)
+}.
+
+Lemma old_of_found : forall L net d0 w, wf L -> rfind net L = Some d0 ->
+  ((exists d, In d L /\ contrib d (d_id d0, w)) <-> In w (map fst (SEL net (old_paths net L)))).
+Proof.
+  intros L net d0 w [H1 [H2 H3]] Hf. unfold old_paths. rewrite Hf.
+  destruct (rfind_Some _ _ _ Hf) as [Hin Hnet]. split.
+  - intros [d [Hd [Hi Hc]]]. cbn [fst snd] in *.
+    assert (d = d0) by (eapply In_same_id; eauto). subst d. now rewrite <- Hnet.
+  - intros Hw. exists d0. split; auto. split; cbn [fst snd]; auto. now rewrite Hnet.
+Qed.
+
+Lemma other_net : forall L net d0 d, wf L -> rfind net L = Some d0 -> In d L ->
+  (d_id d <> d_id d0 <-> d_net d <> net).
+Proof.
+  intros L net d0 d [H1 [H2 H3]] Hf Hd. destruct (rfind_Some _ _ _ Hf) as [Hin Hnet]. split.
+  - intros Hne He. apply Hne. rewrite <- He in Hf. rewrite (rfind_In L d H1 Hd) in Hf.
+    inversion Hf; auto.
+  - intros Hne He. apply Hne. assert (d = d0) by (eapply In_same_id; eauto). now subst.
+Qed.
+
+Lemma emit_emit_ok : forall L c L', wf L -> emit L c L' -> emit_ok L c L'.
+Proof.
+  intros L c L' Hwf Hem. pose proof Hwf as [Hw1 [Hw2 Hw3]].
+  destruct Hem as [L net bc ac repl paths [Hac [Hbc [Hnd Hsame]]] | L net d0 Hf].
+  - (* RibSet *)
+    unfold mkc. unfold rset. destruct (rfind net L) as [d0|] eqn:Hf; cbn [fst snd].
+    + destruct (rfind_Some _ _ _ Hf) as [Hin0 Hnet0].
+      constructor; cbn [c_net c_id c_paths c_ac c_bc c_repl].
+      * pose proof (wf_rset net paths L Hwf Hnd) as H. unfold rset in H. now rewrite Hf in H.
+      * constructor; cbn [c_net c_id c_paths c_ac c_bc c_repl]; auto.
+        unfold old_paths; rewrite Hf. auto.
+      * intros w. apply old_of_found; auto.
+      * intros [a b]. unfold fresh_at at 1. cbn [fst snd]. rewrite rfind_rupdate, Hf.
+        destruct (a =? net) eqn:Ha; auto. apply N.eqb_eq in Ha; subst a. reflexivity.
+      * intros k. split.
+        -- intros [d [Hd Hc]]. apply (In_rupdate_iff net paths L d0 d Hw1 Hf) in Hd as [[Hd Hne]|Hd].
+           ++ right. split; [|eauto]. destruct Hc as [Hi _]. rewrite <- Hi.
+              apply (other_net L net d0 d); auto.
+           ++ subst d. destruct Hc as [Hi Hc]. cbn [d_id d_net d_paths] in *. left; auto.
+        -- intros [[Hi Hc]|[Hne [d [Hd [Hi Hc]]]]].
+           ++ exists {| d_net := net; d_id := d_id d0; d_paths := paths |}. split.
+              ** apply (In_rupdate_iff net paths L d0 _ Hw1 Hf). right; reflexivity.
+              ** split; cbn [d_id d_net d_paths]; auto.
+           ++ exists d. split; [|split; auto].
+              apply (In_rupdate_iff net paths L d0 d Hw1 Hf). left. split; auto.
+              apply (other_net L net d0 d); auto. congruence.
+    + assert (Hfr : ~ In (alloc (rused L)) (map d_id L)) by apply alloc_fresh.
+      set (dn := {| d_net := net; d_id := alloc (rused L); d_paths := paths |}).
+      constructor; cbn [c_net c_id c_paths c_ac c_bc c_repl].
+      * pose proof (wf_rset net paths L Hwf Hnd) as H. unfold rset in H. now rewrite Hf in H.
+      * constructor; cbn [c_net c_id c_paths c_ac c_bc c_repl]; auto.
+        unfold old_paths; rewrite Hf. constructor.
+      * intros w. unfold old_paths; rewrite Hf, sel_nil. cbn [map In]. split; [|tauto].
+        intros [d [Hd [Hi _]]]. cbn [fst] in Hi. apply Hfr. rewrite <- Hi. apply in_map; auto.
+      * intros [a b]. unfold fresh_at. cbn [fst snd]. rewrite rfind_app. cbn [rfind d_net].
+        destruct (a =? net) eqn:Ha.
+        -- apply N.eqb_eq in Ha; subst a. unfold dn; cbn [d_net]. rewrite Hf, N.eqb_refl. reflexivity.
+        -- unfold dn; cbn [d_net]. rewrite (N.eqb_sym net a), Ha. destruct (rfind a L); auto.
+      * intros k. split.
+        -- intros [d [Hd Hc]]. apply in_app_or in Hd as [Hd|[Hd|[]]].
+           ++ right. split; [|eauto]. destruct Hc as [Hi _]. intros He. apply Hfr.
+              rewrite <- He, <- Hi. apply in_map; auto.
+           ++ subst d. destruct Hc as [Hi Hc]. cbn [d_id d_net d_paths] in *. left; auto.
+        -- intros [[Hi Hc]|[Hne [d [Hd Hc]]]].
+           ++ exists dn. split; [apply in_or_app; right; left; auto|].
+              split; cbn [d_id d_net d_paths]; auto.
+           ++ exists d. split; auto. apply in_or_app; auto.
+  - (* RibFree, emitted *)
+    destruct (rfind_Some _ _ _ Hf) as [Hin0 Hnet0]. unfold mkc.
+    constructor; cbn [c_net c_id c_paths c_ac c_bc c_repl].
+    + apply wf_rfree; auto.
+    + constructor; cbn [c_net c_id c_paths c_ac c_bc c_repl]; try discriminate.
+      * constructor.
+      * unfold old_paths; rewrite Hf. auto.
+      * intros p0 q0 [].
+    + intros w. apply old_of_found; auto.
+    + intros [a b]. unfold fresh_at at 1. cbn [fst snd]. rewrite rfind_rfree.
+      destruct (a =? net) eqn:Ha; auto. rewrite sel_nil. reflexivity.
+    + intros k. rewrite sel_nil. cbn [map In]. split.
+      * intros [d [Hd Hc]]. apply In_rfree in Hd as [Hd Hne]. right. split; [|eauto].
+        destruct Hc as [Hi _]. rewrite <- Hi. apply (other_net L net d0 d); auto.
+      * intros [[_ []]|[Hne [d [Hd [Hi Hc]]]]]. exists d. split; [|split; auto].
+        apply In_rfree. split; auto. apply (other_net L net d0 d); auto. congruence.
+Qed.
+
+(* Deliver: processing the change of an emitting RIB operation moves the neighbour-side
+   invariants from the RIB before the operation to the RIB after it *)
+Lemma deliver_ok : forall L c L' em p base,
+  wf L -> emit L c L' -> emap_ok L em -> pend_ok L p base -> coherent E p ->
+  exists p', snd (PC c (em, SPtx E p)) = SPtx E p' /\
+             wf L' /\ emap_ok L' (fst (PC c (em, SPtx E p))) /\ pend_ok L' p' base /\ coherent E p'.
+Proof.
+  intros L c L' em p base Hwf Hem Hemap Hpend Hcoh. unfold aptx.
+  destruct (emit_emit_ok L c L' Hwf Hem) as [Hwf' Hh Hold Hfresh Hcontrib].
+  destruct (proc_ok E max vis pol c (old_paths (c_net c) L) em p base Hh) as [p' [Hs [Hpe [Hpt Hpc]]]].
+  - intros w. rewrite (Hemap (c_id c, w)). apply Hold.
+  - intros w. rewrite (Hpend (c_net c, w)). apply fresh_old.
+  - exists p'. split; [exact Hs|]. split; [exact Hwf'|]. split; [|split; auto].
+    + intros k. rewrite Hpe, Hcontrib. rewrite (Hemap k). tauto.
+    + intros k. rewrite Hpt, Hfresh. destruct (fst k =? c_net c); auto.
+Qed.
+
+Lemma silent_ok : forall L L' em p base, wf L -> silent L L' ->
+  wf L' /\ (emap_ok L em -> emap_ok L' em) /\ (pend_ok L p base -> pend_ok L' p base).
+Proof.
+  intros L L' em p base Hwf Hs. pose proof Hwf as [Hw1 [Hw2 Hw3]].
+  destruct Hs as [L net Hf | L net Hold].
+  - assert (Hwf' : wf (fst (rset net [] L))) by (apply wf_rset; auto; constructor).
+    unfold rset in *. rewrite Hf in *. cbn [fst] in *.
+    set (dn := {| d_net := net; d_id := alloc (rused L); d_paths := [] |}) in *.
+    split; [exact Hwf'|]. split.
+    + intros He k. rewrite (He k). split.
+      * intros [d [Hd Hc]]. exists d; split; auto. apply in_or_app; auto.
+      * intros [d [Hd Hc]]. apply in_app_or in Hd as [Hd|[Hd|[]]]; eauto.
+        subst d. destruct Hc as [_ Hc]. unfold dn in Hc; cbn [d_net d_paths] in Hc.
+        rewrite sel_nil in Hc. destruct Hc.
+    + intros Hp k. rewrite (Hp k). unfold fresh_at. rewrite rfind_app.
+      destruct (rfind (fst k) L); auto. cbn [rfind]. unfold dn; cbn [d_net d_paths].
+      destruct (net =? fst k); auto. rewrite sel_nil. reflexivity.
+  - split; [apply wf_rfree; auto|]. split.
+    + intros He k. rewrite (He k). split.
+      * intros [d [Hd Hc]]. exists d; split; auto. apply In_rfree. split; auto.
+        intros Hn. unfold old_paths in Hold. rewrite <- Hn in Hold.
+        rewrite (rfind_In L d Hw1 Hd) in Hold. destruct Hc as [_ Hc].
+        rewrite Hold, sel_nil in Hc. destruct Hc.
+      * intros [d [Hd Hc]]. apply In_rfree in Hd as [Hd _]. eauto.
+    + intros Hp k. rewrite (Hp k). unfold fresh_at. rewrite rfind_rfree.
+      destruct (fst k =? net) eqn:Hk; auto. apply N.eqb_eq in Hk. rewrite Hk.
+      unfold old_paths in Hold. destruct (rfind net L); auto. rewrite Hold, sel_nil. reflexivity.
+Qed.
+
+(* the RIB now (R) is the RIB the neighbour has caught up with (L) plus the operations
+   whose changes are still queued, in order *)
+Inductive Chain : rib -> list change -> rib -> Prop :=
+| ch_nil : forall R, Chain R [] R
+| ch_silent : forall L L1 ch R, silent L L1 -> Chain L1 ch R -> Chain L ch R
+| ch_emit : forall L c L1 ch R, emit L c L1 -> Chain L1 ch R -> Chain L (c :: ch) R.
+
+Lemma chain_snoc_emit : forall L ch R c R', Chain L ch R -> emit R c R' -> Chain L (ch ++ [c]) R'.
+Proof.
+  intros L ch R c R' H He. induction H; cbn [app].
+  - eapply ch_emit; eauto. constructor.
+  - eapply ch_silent; eauto.
+  - eapply ch_emit; eauto.
+Qed.
+
+Lemma chain_snoc_silent : forall L ch R R', Chain L ch R -> silent R R' -> Chain L ch R'.
+Proof.
+  intros L ch R R' H He. induction H.
+  - eapply ch_silent; eauto. constructor.
+  - eapply ch_silent; eauto.
+  - eapply ch_emit; eauto.
+Qed.
+
+Lemma chain_nil_transfer : forall L R em p base,
+  Chain L [] R -> wf L -> emap_ok L em -> pend_ok L p base ->
+  wf R /\ emap_ok R em /\ pend_ok R p base.
+Proof.
+  intros L R em p base H. remember [] as ch eqn:Hch. induction H; intros Hwf He Hp; auto.
+  - destruct (silent_ok L L1 em p base Hwf H) as [H1 [H2 H3]]. apply IHChain; auto.
+  - discriminate.
+Qed.
+
+Lemma chain_cons_inv : forall L c ch R em p base,
+  Chain L (c :: ch) R -> wf L -> emap_ok L em -> pend_ok L p base ->
+  exists L1 L2, wf L1 /\ emap_ok L1 em /\ pend_ok L1 p base /\ emit L1 c L2 /\ Chain L2 ch R.
+Proof.
+  intros L c ch R em p base H. remember (c :: ch) as ch' eqn:Hch. revert c ch Hch.
+  induction H; intros c0 ch0 Hch Hwf He Hp.
+  - discriminate.
+  - destruct (silent_ok L L1 em p base Hwf H) as [H1 [H2 H3]]. eapply IHChain; eauto.
+  - inversion Hch; subst. exists L, L1. split; [|split; [|split; [|split]]]; auto.
+Qed.
+
+(* per-prefix: nothing queued for a prefix => the neighbour has caught up on it *)
+Lemma emit_other_net : forall L c L' k, emit L c L' -> c_net c <> fst k -> FRESH L' k = FRESH L k.
+Proof.
+  intros L c L' k He Hne. unfold fresh_at. destruct He as [L net bc ac repl paths _ | L net d Hf];
+    cbn [c_net mkc] in Hne.
+  - unfold rset. destruct (rfind net L) eqn:Hf; cbn [fst].
+    + rewrite rfind_rupdate. apply N.eqb_neq in Hne. now rewrite (N.eqb_sym (fst k) net), Hne.
+    + rewrite rfind_app. destruct (rfind (fst k) L); auto. cbn [rfind d_net].
+      apply N.eqb_neq in Hne. now rewrite Hne.
+  - rewrite rfind_rfree. apply N.eqb_neq in Hne. now rewrite (N.eqb_sym (fst k) net), Hne.
+Qed.
+
+Lemma silent_fresh : forall L L' k, wf L -> silent L L' -> FRESH L' k = FRESH L k.
+Proof.
+  intros L L' k Hwf Hs.
+  destruct (silent_ok L L' [] (ptx_empty E) (fun k => FRESH L k) Hwf Hs) as [_ [_ H]].
+  assert (Hp : pend_ok L (ptx_empty E) (fun k => FRESH L k)) by (intros k'; reflexivity).
+  specialize (H Hp k). unfold T in H. cbn in H. auto.
+Qed.
+
+Lemma emit_wf : forall L c L', wf L -> emit L c L' -> wf L'.
+Proof. intros L c L' Hwf He. destruct (emit_emit_ok L c L' Hwf He); auto. Qed.
+
+Lemma chain_fresh_other : forall L ch R k,
+  Chain L ch R -> wf L -> (forall c, In c ch -> c_net c <> fst k) -> FRESH R k = FRESH L k.
+Proof.
+  intros L ch R k H. induction H; intros Hwf Hno; auto.
+  - rewrite IHChain; auto.
+    + apply silent_fresh; auto.
+    + destruct (silent_ok L L1 [] (ptx_empty E) (fun _ => None) Hwf H); auto.
+  - rewrite IHChain.
+    + apply (emit_other_net L c L1 k H). apply Hno; left; auto.
+    + eapply emit_wf; eauto.
+    + intros c' Hc'. apply Hno; right; auto.
+Qed.
+
+(* ------------------------------------------------------------ the initial dump *)
+Definition items (d : dest) : list (N * E) := SEL (d_net d) (d_paths d).
+Definition em_items (d : dest) : list key := map (fun x => (d_id d, fst x)) (items d).
+Definition g_items (d : dest) : list (key * E) := map (fun x => ((d_net d, fst x), snd x)) (items d).
+
+Definition snapc (d : dest) : change :=
+  {| c_net := d_net d; c_id := d_id d; c_bc := true; c_ac := true; c_repl := None;
+     c_paths := d_paths d |}.
+
+Lemma em_ids_nil : forall i (em : emap), (forall w, ~ In (i, w) em) -> em_ids i em = [].
+Proof.
+  intros i em H. destruct (em_ids i em) as [|w l] eqn:He; auto.
+  exfalso. apply (H w). apply In_em_ids. rewrite He. left; auto.
+Qed.
+
+Lemma em_add_new : forall k (em : emap), ~ In k em -> em_add k em = em ++ [k].
+Proof.
+  intros k em H. unfold em_add. destruct (memK k em) eqn:Hm; auto.
+  apply memK_In in Hm; contradiction.
+Qed.
+
+Lemma group_fold2 : max <> 1 -> forall (c : change) (top : list (N * E)) (em : emap) g,
+  NoDup (map fst top) -> (forall w, In w (map fst top) -> ~ In (c_id c, w) em) ->
+  fold_left (f2 E max c) top (em, SGroup E g) =
+  (em ++ map (fun x => (c_id c, fst x)) top,
+   SGroup E (g ++ map (fun x => ((c_net c, fst x), snd x)) top)).
+Proof.
+  intros Hm c. induction top as [|[w e] top IH]; intros em g Hnd Hno; cbn [fold_left map].
+  - now rewrite !app_nil_r.
+  - cbn [map fst] in Hnd. inversion Hnd as [|? ? Hw Hnd']; subst.
+    unfold f2 at 2. cbn [fst snd]. unfold aptx in *.
+    assert (Hnw : ~ In (c_id c, w) em) by (apply Hno; left; auto).
+    assert (Hmk : memK (c_id c, w) em = false).
+    { destruct (memK (c_id c, w) em) eqn:Hk; auto. apply memK_In in Hk; contradiction. }
+    rewrite Hmk. cbn [negb orb]. rewrite em_add_new by auto.
+    cbn [sink_reach]. unfold wpid. rewrite (aptx_true max Hm).
+    fold (f2 E max c). rewrite IH; auto.
+    + cbn [fst snd]. now rewrite <- !app_assoc.
+    + intros w' Hw' Hin. apply in_app_or in Hin as [Hin|[Hin|[]]].
+      * apply (Hno w'); auto. right; auto.
+      * inversion Hin; subst. contradiction.
+Qed.
+
+Lemma group_step : forall d (em : emap) g,
+  (forall w, ~ In (d_id d, w) em) -> NoDup (map p_pid (d_paths d)) ->
+  PC (snapc d) (em, SGroup E g) = (em ++ em_items d, SGroup E (g ++ g_items d)).
+Proof.
+  intros d em g Hno Hnd. unfold em_items, g_items, items.
+  destruct (N.eq_dec max 1) as [Hm|Hm].
+  - assert (Hmt : (max =? 1) = true) by (rewrite Hm; reflexivity).
+    unfold process_change, ap. rewrite Hmt. cbn [negb]. unfold proc_plain.
+    cbn [snapc c_bc negb c_paths c_net c_id].
+    rewrite (sel_plain E max vis pol Hm).
+    assert (Hws : em_was_sent (d_id d) em = false).
+    { destruct (em_was_sent (d_id d) em) eqn:Hw; auto.
+      apply em_was_sent_spec in Hw as [w Hw]. exfalso; eapply Hno; eauto. }
+    destruct (d_paths d) as [|b t].
+    + rewrite Hws. cbn [map]. now rewrite !app_nil_r.
+    + unfold llgr_of; cbn [memN existsb]. destruct (vis b).
+      * destruct (pol false (d_net d) b) as [e|].
+        -- cbn [map fst snd sink_reach]. unfold wpid, aptx. rewrite Hmt. cbn [negb].
+           rewrite em_add_new by apply Hno. reflexivity.
+        -- rewrite Hws. cbn [map]. now rewrite !app_nil_r.
+      * rewrite Hws. cbn [map]. now rewrite !app_nil_r.
+  - unfold process_change, ap. apply N.eqb_neq in Hm as Hmb. rewrite Hmb. cbn [negb].
+    rewrite proc_ap_eq. cbn [snapc c_ac negb fst]. rewrite (top_n_sel E max vis pol Hm).
+    cbn [c_net c_paths c_id]. rewrite em_ids_nil by auto. cbn [filter fold_left].
+    rewrite (group_fold2 Hm); auto.
+    apply sel_nodup; auto.
+Qed.
+
+Lemma filter_map_ext : forall {A B} (f g : A -> option B) l,
+  (forall a, f a = g a) -> filter_map f l = filter_map g l.
+Proof. intros A B f g l H. induction l as [|a l IH]; cbn [filter_map]; auto. now rewrite H, IH. Qed.
+
+Lemma snapshot_unlimited : forall R,
+  snapshot false max R =
+  filter_map (fun d => match d_paths d with [] => None | _ => Some (snapc d) end) R.
+Proof.
+  intros R. unfold snapshot. apply filter_map_ext. intros d. unfold snap_paths, snapc.
+  destruct (d_paths d); reflexivity.
+Qed.
+
+Lemma dump_closed : forall R (em : emap) g,
+  NoDup (map d_id R) -> (forall d, In d R -> NoDup (map p_pid (d_paths d))) ->
+  (forall d w, In d R -> ~ In (d_id d, w) em) ->
+  fold_left (fun s c => PC c s)
+            (filter_map (fun d => match d_paths d with [] => None | _ => Some (snapc d) end) R)
+            (em, SGroup E g) =
+  (em ++ flat_map em_items R, SGroup E (g ++ flat_map g_items R)).
+Proof.
+  induction R as [|d R IH]; intros em g Hid Hp Hno; cbn [filter_map flat_map fold_left].
+  - now rewrite !app_nil_r.
+  - inversion Hid as [|? ? Hd Hid']; subst.
+    assert (Hnext : forall d' w, In d' R -> ~ In (d_id d', w) (em ++ em_items d)).
+    { intros d' w Hd' Hin. apply in_app_or in Hin as [Hin|Hin].
+      - apply (Hno d' w); auto. right; auto.
+      - unfold em_items in Hin. apply in_map_iff in Hin as [x [Hx _]]. inversion Hx.
+        apply Hd. rewrite H0. apply in_map; auto. }
+    destruct (d_paths d) as [|b t] eqn:Hdp.
+    + assert (Hi : items d = []) by (unfold items; rewrite Hdp; apply sel_nil).
+      unfold em_items, g_items in *. rewrite Hi in *. cbn [map app] in *.
+      rewrite app_nil_r in Hnext. apply IH; auto.
+      intros; apply Hp; right; auto.
+    + cbn [fold_left]. rewrite group_step.
+      * rewrite IH; auto.
+        -- now rewrite <- !app_assoc.
+        -- intros; apply Hp; right; auto.
+      * intros w. apply Hno. left; auto.
+      * apply Hp. left; auto.
+Qed.
+
+Lemma seg_lookup : forall net (its : list (N * E)) m k,
+  NoDup (map fst its) ->
+  kfind k (mirror_reach E (map (fun x => ((net, fst x), snd x)) its) m) =
+  if fst k =? net then match assoc (snd k) its with Some e => Some e | None => kfind k m end
+  else kfind k m.
+Proof.
+  intros net. induction its as [|[w e] its IH]; intros m k Hnd; cbn [map].
+  - unfold mirror_reach; cbn [fold_left assoc]. now destruct (fst k =? net).
+  - cbn [map fst] in Hnd. inversion Hnd as [|? ? Hw Hnd']; subst.
+    unfold mirror_reach. cbn [fold_left fst snd]. fold (mirror_reach E (map (fun x => ((net, fst x), snd x)) its)
+      (kinsert (net, w) e m)).
+    rewrite IH by auto. rewrite kfind_kinsert. unfold key_eqb. cbn [fst snd assoc].
+    destruct (fst k =? net) eqn:Hn; cbn [andb]; auto.
+    rewrite (N.eqb_sym (snd k) w). destruct (w =? snd k) eqn:Hws; auto.
+    apply N.eqb_eq in Hws; subst w.
+    assert (Ha : assoc (snd k) its = None) by (apply assoc_None; auto). now rewrite Ha.
+Qed.
+
+Lemma rfind_notin : forall net R, ~ In net (map d_net R) -> rfind net R = None.
+Proof.
+  induction R as [|d R IH]; cbn [rfind map In]; intros H; auto.
+  destruct (d_net d =? net) eqn:Hd.
+  - apply N.eqb_eq in Hd. exfalso; apply H; auto.
+  - apply IH. intros Hi; apply H; auto.
+Qed.
+
+Lemma dump_lookup : forall R m k,
+  NoDup (map d_net R) -> (forall d, In d R -> NoDup (map p_pid (d_paths d))) ->
+  kfind k (mirror_reach E (flat_map g_items R) m) =
+  match FRESH R k with Some e => Some e | None => kfind k m end.
+Proof.
+  induction R as [|d R IH]; intros m k Hn Hp; cbn [flat_map].
+  - reflexivity.
+  - inversion Hn as [|? ? Hd Hn']; subst.
+    unfold mirror_reach. rewrite fold_left_app.
+    fold (mirror_reach E (g_items d) m).
+    fold (mirror_reach E (flat_map g_items R) (mirror_reach E (g_items d) m)).
+    rewrite IH; auto. 2:{ intros; apply Hp; right; auto. }
+    unfold g_items at 1. rewrite seg_lookup.
+    2:{ unfold items. destruct (N.eq_dec max 1) as [Hm|Hm].
+        - rewrite (sel_plain E max vis pol Hm). destruct (d_paths d) as [|b t]; [constructor|].
+          destruct (vis b); [|constructor]. destruct (pol false (d_net d) b); cbn [map fst].
+          + constructor; [intros []|constructor].
+          + constructor.
+        - apply sel_nodup; auto. apply Hp; left; auto. }
+    unfold fresh_at. cbn [rfind]. rewrite (N.eqb_sym (fst k) (d_net d)).
+    destruct (d_net d =? fst k) eqn:Hk.
+    + apply N.eqb_eq in Hk. rewrite rfind_notin by (rewrite <- Hk; auto).
+      unfold items. rewrite Hk. reflexivity.
+    + reflexivity.
+Qed.
+
+Lemma dump_ok : forall R, wf R ->
+  emap_ok R (fst (dump E ByNet false max aptx vis pol [] R)) /\
+  pend_ok R (ptx_empty E)
+          (fun k => kfind k (mirror_reach E (snd (dump E ByNet false max aptx vis pol [] R)) [])).
+Proof.
+  intros R [H1 [H2 H3]]. unfold dump. rewrite snapshot_unlimited.
+  match goal with |- context [fold_left ?f ?l ?a] => set (X := fold_left f l a) end.
+  assert (HX : X = ([] ++ flat_map em_items R, SGroup E ([] ++ flat_map g_items R)))
+    by (apply dump_closed; auto).
+  rewrite HX. cbn [fst snd sink_group app]. split.
+  - intros k. rewrite in_flat_map. split.
+    + intros [d [Hd Hk]]. exists d; split; auto. unfold em_items in Hk.
+      apply in_map_iff in Hk as [x [Hx Hi]]. subst k. split; cbn [fst snd]; auto.
+      apply in_map; auto.
+    + intros [d [Hd [Hi Hc]]]. exists d; split; auto. unfold em_items.
+      apply in_map_iff in Hc as [x [Hx Hin]]. apply in_map_iff. exists x. split; auto.
+      destruct k; cbn [fst snd] in *. congruence.
+  - intros k. unfold T. rewrite pview_empty. rewrite dump_lookup; auto.
+    cbn [kfind]. destruct (FRESH R k); auto.
+Qed.
